@@ -13,7 +13,7 @@ EN = "exhaustive enumeration of a finite input/configuration space executed on t
 
 CLAIMS = {
     "C01": (H, "model_checking", MC,
-            "every assignment history up to the stated depth over small adversarial worlds (nested siblings, list items, attributes, computed keys, whole-container readers, FunctionTask, LinearKnob) is executed on the real Manager and compared with the reference model after every operation; plus a finite deep/wide graph family up to 20000 tasks",
+            "every assignment history up to the stated depth over small adversarial worlds (nested siblings, list items, attributes, computed keys, whole-container readers, FunctionTask, LinearKnob) is executed on the real Manager and compared with the reference model after every operation; plus updates with several start locations (functions generated for two inputs), special float values, and a finite deep/wide graph family up to 20000 tasks",
             "bounded depth, two-value alphabet; compiled build of the working tree; hash seeds enumerated; the sibling-cycle defect is a listed known finding recognised by a four-condition classifier"),
     "C02": (H, "model_checking", MC,
             "every assignment of every explored history is executed once per permutation of the start set (toposort seam) and per hash seed; its write trace must be exactly the model's trigger set, once each, in precise data-flow order; cyclic alphabets for termination/at-most-once; toposort itself on all digraphs with <= 4 nodes",
@@ -44,10 +44,10 @@ CLAIMS.update({
             "on every reached acyclic expression-task state x every non-empty leaf subset (<= 3) x argument values: gen_fun(...)(*vals) against a twin driven by set_value; emitted lines are the model trigger set once each in precise data-flow order",
             "division by zero inputs excluded as the property says; sibling-cycle ordering defect is a listed known finding"),
     "C17": (H, "model_checking", MC,
-            "phased histories h1 . freeze . every API call (<= k) . unfreeze . h2: a rejected call raises ValueError and leaves the entire concrete state identical; value assignments propagate as in the reference model; after unfreeze the state equals the never-frozen twin",
+            "phased histories h1 . freeze . every API call (<= k) . unfreeze . h2: a rejected call raises ValueError and leaves the entire concrete state identical; value assignments propagate as in the reference model; after unfreeze the state equals the never-frozen twin; includes plain assignments to knob targets, function tasks that assign through the manager's references, and (only while frozen) definitions that cannot be evaluated or whose evaluation has an effect",
             "bounds on the phase lengths stated in the evidence"),
     "C18": (H, "fault_enumeration", FE,
-            "for every explored history and every assignment, the fault-free write trace is recorded and then every write position k is made to fail (also FunctionTask actions), sequences of up to two faulty updates, then the fault-free repeat: exception reaches the caller, writes are the prefix W[:k], indices consistent, repeat re-establishes the pull-model contents",
+            "for every explored history and every assignment, the fault-free write trace is recorded and then every write position k is made to fail (also FunctionTask actions), in every exception class a container really raises; sequences of up to two faulty updates (the same assignment or another value), the second compared write for write with the never-failed run; then the fault-free repeat: exception reaches the caller, writes are the prefix W[:k] and nothing runs after the failing point, indices consistent, repeat re-establishes the pull-model contents",
             "faults are injected by harness-side logging containers; 'definitions unchanged' accepts either the pre-update or the established definition (DESIGN section 6)"),
 })
 
@@ -71,16 +71,16 @@ CLAIMS.update({
 
 CLAIMS.update({
     "C15": (H, "model_checking", MC,
-            "every sequence of Optimize API calls (step, step without take_best, Broyden step, solve incl. failing solves, reload first/middle/last, tag, enable/disable knob and target, clear_log) up to the depth bound on families with a non-monotone Newton iteration, an overshooting one, an inconsistent system, limits and weights; after every call every row of log() is re-evaluated independently (targets exact, penalty 1e-12), reload(i) restores row i bit-exactly, a returning step(take_best) ends within tolerance or on a minimum-penalty row of that call and never worse than it started",
+            "every sequence of Optimize API calls (step, step without take_best, Broyden step, solve incl. failing solves, reload first/middle/last, tag, enable/disable knob and target, clear_log) up to the depth bound on families with a non-monotone Newton iteration, an overshooting one, an inconsistent system, limits and weights (also weights far below 1 with loose tolerances); after every call every row of log() is re-evaluated independently (targets exact, penalty 1e-12), reload(i) restores row i bit-exactly, a returning step(take_best) ends within tolerance or on a minimum-penalty row of that call and never worse than it started",
             "states are merged on the full log + containers + flags + solver state; a step that raises is not a returning step"),
     "C16": (E, "exploration", EN,
-            "SVD.lstsq on U diag(s) V^T for every shape 1..6 x 1..6, exact orthogonal factors, singular-value patterns (full, rank-deficient, graded, scaled, repeated), rhs in/out of range, rcond and cut-off settings, judged by the Moore-Penrose characterisation on the truncated system (plus pinv cross-check) and all 2x2/2x3 matrices over {-1,0,1,2}; consistent linear problems cond<=100: first step lands on the solution (minimum-norm step when under-determined) and solve() succeeds with Broyden off/on/every 2; weight and rescale_x maps inverse on a lattice; view Jacobians vs closed form vs central differences for every return_scalar x rescale_x",
+            "SVD.lstsq on U diag(s) V^T for every shape 1..6 x 1..6, exact orthogonal factors, singular-value patterns (full, rank-deficient, graded, scaled, repeated), rhs in/out of range, rcond and cut-off settings given at construction and/or per call (0 included) on re-used objects, judged by the Moore-Penrose characterisation on the truncated system (plus pinv cross-check) and all 2x2/2x3 matrices over {-1,0,1,2}; consistent linear problems cond<=100: first step lands on the solution (minimum-norm step when under-determined) and solve() succeeds with Broyden off/on/every 2; weight and rescale_x maps inverse on a lattice; step ; edit targets / knob limits / weights ; step sequences; view Jacobians vs closed form vs central differences for every return_scalar x rescale_x, with every single knob / target disabled",
             "finite families, stated tolerances; threshold-ambiguous truncations skipped and counted"),
 })
 
 CLAIMS.update({
     "C19": (E, "exploration", EN,
-            "every string derivable from calc_grammar within the depth bound (depth 1 over all NUMBER forms, dotted names, element->field, sin(.), atan2(.,.), + - * / ^ **, unary signs, parentheses; depth 2 over a reduced terminal set), generated by the grammar's own rules so the parse is known by construction, in item and attribute element mode: deferred value == guarded reference (bit exact / NaN aware / same exception type), immediate == unguarded reference (ZeroDivisionError on a zero divisor), fully parenthesised rendering == Python eval of the mirrored expression; repeated after every variable and element field was changed through the manager, including dependants defined from the expressions",
+            "every string derivable from calc_grammar within the depth bound (depth 1 over all NUMBER forms, dotted names, element->field, sin(.), atan2(.,.), + - * / ^ **, unary signs, parentheses; depth 2 over a reduced terminal set), generated by the grammar's own rules so the parse is known by construction, in item and attribute element mode, with plain variables and with variables themselves defined by expressions (and redefined through the manager): deferred value == guarded reference (bit exact / NaN aware / same exception type), immediate == unguarded reference (ZeroDivisionError on a zero divisor), fully parenthesised rendering == Python eval of the mirrored expression; repeated after every variable and element field was changed through the manager, including dependants defined from the expressions",
             "terminal sets and depth stated in the evidence; exceptions compared by type"),
 })
 
@@ -92,7 +92,7 @@ CLAIMS.update({
 
 CLAIMS.update({
     "C20": (H, "model_checking", "exhaustive enumeration of configurations (build mode x hash seed) x bounded program corpora executed on the implementation; transcript equality",
-            "every manager history up to the depth bound over two alphabets (nested siblings; every node class, LinearKnob), every term of the C04/C11 expression corpus and all ordered pairs of an adversarial path family are executed in a separate interpreter for every configuration in {extension compiled from the working tree, pure-Python fallback} x PYTHONHASHSEED range; canonical transcripts (contents after every operation, exception types, definitions, dump text, pickle copy and follow-up; printed form, typed value, dependencies, equality and hash consistency) must be identical",
+            "every manager history up to the depth bound over four alphabets (nested siblings; every node class, LinearKnob; sibling re-definitions; diamonds with functions generated for two inputs), every operator and builtin over every pair of 22 operand value kinds, every term of the C04/C11 expression corpus and all ordered pairs of an adversarial path family are executed in a separate interpreter for every configuration in {extension compiled from the working tree, pure-Python fallback} x PYTHONHASHSEED range; canonical transcripts (contents after every operation, exception types, definitions, dump text, pickle copy and follow-up; printed form, typed value, dependencies, equality and hash consistency) must be identical",
             "exceptions by type; hash values themselves not compared; signed zeros not distinguished (Cython 3.3 object multiply returns +0.0 for 0.0 * -3, reproduced outside xdeps); histories whose order the model finds under-determined by the recorded sibling-cycle finding are excluded statically and counted"),
 })
 
